@@ -391,6 +391,8 @@ def run(spec, hang_ok=False):
             # the manager as a whole is told to stop, from another user thread, while transfers are being started
             m = getattr(w, 'mgr', None)
             if m is not None:
+                me = threading.get_ident()
+                d.cancel_applied = lambda: _past_cancel_pass(me)
                 try:
                     m.shutdown(cancel=True, cancel_msg=cp.get('msg', 'bye'))
                 except BaseException as e:  # noqa
@@ -901,6 +903,18 @@ def _main_waiting_for_transfers(main_ident):
     fr = sys._current_frames().get(main_ident)
     while fr is not None:
         if fr.f_code.co_name == 'wait' and fr.f_code.co_filename.endswith('manager.py'):
+            return True
+        fr = fr.f_back
+    return False
+
+
+def _past_cancel_pass(ident):
+    """True once the thread running shutdown(cancel=True) has gone through the cancel pass: it is inside the wait for the transfers, or
+    already in the joins of the executors that follow it."""
+    fr = sys._current_frames().get(ident)
+    while fr is not None:
+        name, fn = fr.f_code.co_name, fr.f_code.co_filename
+        if (name == 'wait' and fn.endswith('manager.py')) or (name == 'shutdown' and fn.endswith('futures.py')):
             return True
         fr = fr.f_back
     return False
